@@ -29,7 +29,7 @@ SERVICE_CLASSES = [("streams", None), ("hammer-same-row", None), ("mixed", ["wri
 RATE_POINTS = [
     ("MT48LC4M16", "1:1", None, None, 101), ("MT47H64M16", "1:2", None, None, 103), ("MT41K128M16", "1:4", None, None, 105),
     ("MT40A1G8", "1:4", None, "4x", 102), ("IS42S16160", "1:1", None, None, 107), ("MT46V32M16", "1:2", None, None, 109),
-    ("MT40A256M16", "1:4", None, "2x", 104), ("K4B1G0446F", "1:2", None, None, 111),
+    ("MT40A256M16", "1:4", None, "2x", 104), ("MT47H32M16", "1:2", None, None, 111),     # (not K4B1G0446F: its tRFC is a clock count, 120 cycles at 1:2 -- longer than the interval at these clocks)
 ]
 
 
